@@ -93,6 +93,10 @@ def events_for(fam, ks, vals="xy"):
             ev += [("add", k, v1), ("add", k, v2), ("put", k, (v2, v1)), ("pin", k, (v1, v2)), ("pop", k), ("rem", k)]
             if fam == "ioset":
                 ev += [("rem", k, v1), ("rem", k, v2)]
+                if vals == "xy":
+                    ev += [("add", k, "z")]                  # a third value: removing the middle one leaves a hole in the ordinals
+            elif vals == "xy":
+                ev += [("pin", k, (v1, v1, v2))]             # a list may repeat a value
     return ev
 
 
